@@ -45,7 +45,6 @@ impl Typstyle {
                         SyntaxKind::Args
                             | SyntaxKind::Array
                             | SyntaxKind::Dict
-                            | SyntaxKind::Parenthesized
                             | SyntaxKind::CodeBlock
                             | SyntaxKind::ContentBlock
                     )
